@@ -286,3 +286,33 @@ pub fn sizing_probe(r: RegLan) -> Option<usize> {
         Err(_) => None,
     }
 }
+
+/// code points around the end points of character ranges of a term that are not cell boundaries
+pub fn alien_points(r: RegLan, alpha: &Alphabet, out: &mut Vec<u32>, seen: &mut std::collections::HashSet<usize>) {
+    if !seen.insert(key(r)) {
+        return;
+    }
+    match r.verif_expr() {
+        BaseRegLan::Range(set) => {
+            let (s, e) = set.verif_bounds();
+            let (s2, e2) = (s.min(0x2FFFF), e.min(0x2FFFF));
+            let aligned = s <= e && e <= 0x2FFFF && alpha.lo(alpha.cell_of(s2)) == s && alpha.hi(alpha.cell_of(e2)) == e;
+            if !aligned {
+                for p in [s2.saturating_sub(1), s2, e2, (e2 + 1).min(0x2FFFF)] {
+                    out.push(p);
+                }
+            }
+        }
+        BaseRegLan::Concat(a, b) => {
+            alien_points(a, alpha, out, seen);
+            alien_points(b, alpha, out, seen);
+        }
+        BaseRegLan::Loop(e, _) | BaseRegLan::Complement(e) => alien_points(e, alpha, out, seen),
+        BaseRegLan::Union(l) | BaseRegLan::Inter(l) => {
+            for x in l.iter() {
+                alien_points(x, alpha, out, seen);
+            }
+        }
+        _ => {}
+    }
+}
